@@ -608,6 +608,8 @@ func Run(cfg hx.Config) error {
 	e.rangeOps(cfg.N(1500, 150000))
 	e.ctlOps(cfg.N(25, 1500))
 	e.multiRecordOps(cfg.N(40, 2000))
+	e.cpeSubOps(cfg.N(300, 5000))
+	e.scanOps(cfg.N(60, 3000))
 	e.urlQueryOps(cfg.N(600, 20000))
 	e.osvMatcherOps(cfg.N(30, 2000))
 	e.osvFreeOps(cfg.N(1500, 100000))
